@@ -36,6 +36,9 @@ CLAIMED = {
  "C14": dict(level="exploration", oracle="forged-NA classification vs call log; learned router vs the reference decoder's reading of the advertisements sent",
    text="Concurrent simulation of the real ICMPv6 handler: API tasks call StartHunt/StopHunt with link-local, address-less, global and IPv4 targets while a router node sends router advertisements built from generated option lists (source LLA, prefixes, MTU, RDNSS, unknown types; boundary flags, preference and lifetimes) and hosts send neighbour solicitations; the 2-2.8 s spoof timers run on the virtual clock under seeded interleavings and, in a share of runs, stalls. Every neighbour advertisement written is decoded independently: forged ones must carry override and hop limit 255, go only to effectively hunted MACs, not precede the first RA, and stop after StopHunt/Close (virtual time, no stalls); after every settled RA FindRouter must equal the reference decoder's reading of one of the advertisements sent by that router.",
    ref="DESIGN.md section 4 (C14)"),
+ "C07": dict(level="exploration", oracle="independent RFC decoder on every frame written + per-call intent checks",
+   text="Every frame any library path writes to the simulated connection, in every scenario family of every property (host histories with real purge probes, DHCP histories incl. attack bursts and forced declines, ARP/NDP spoof loops, pings) plus a dedicated family that calls every exported send function with generated arguments under several NIC configurations, is decoded by a decoder written from the RFCs that shares no code with the library: complete and length-consistent at every layer, IPv4/ICMP/ICMPv6 checksums, hop limit 255 for link-local NDP, 33:33 mapping for IPv6 multicast, Ethernet source = interface MAC; the dedicated family also checks the fields against the caller's arguments. Pool buffers are poisoned on Get, so a field the encoder forgot to write shows up as garbage.",
+   ref="DESIGN.md section 4 (C07)"),
 }
 
 NA = {
